@@ -14,6 +14,7 @@ def run_histories(ctx, cases, batch=8):
         crash = [l for l in il if l.startswith("CRASH")]
         if crash: why.append(("C03", "implementation crashed: " + crash[0][:200]))
         c["oracle"] = why
+        c["impl"] = il
         a, b = histgen.canon_lines(il), histgen.canon_lines(ml)
         if a != b:
             k = next((j for j in range(min(len(a), len(b))) if a[j] != b[j]), min(len(a), len(b)))
@@ -21,6 +22,43 @@ def run_histories(ctx, cases, batch=8):
             j = next((t for t in range(min(len(x), len(y))) if x[t] != y[t]), 0)
             diffs.append((c["id"], c, "result %d (%s): impl ..%s vs model ..%s" % (k, (c["script"][k] if k < len(c["script"]) else "?")[:40], x[max(0, j - 30):j + 60], y[max(0, j - 30):j + 60])))
     return diffs, cases
+
+def theorem_check(ctx, cases, pid):
+    """the end-to-end theorems (C01_end_to_end / C13_records_across_outputs) against the implementation: the extracted model
+    evaluates the theorem's hypotheses (preamble and all written values within the ranges of the format, history admissible) and
+    its right-hand side (log_qr / log_mm: the hint-filtered submitted records, minus those still buffered at the end) on the
+    history; where the hypotheses hold, the records the REAL reader returned for the REAL outputs, in rotation order, must be
+    exactly that list.  Returns the premise statistics for the evidence file."""
+    sch = schema.load(ctx["mdl"])
+    scripts = []
+    if ctx["tier"] == "quick":               # the multi-window cases are re-simulated by the model only in the thorough tier
+        cases = [c for c in cases if c.get("meta", {}).get("kind") != "multi-window"]
+    for c in cases:
+        s = histgen.to_script(sch, c["h"], read_back=False)
+        k = len(s) - 1                       # before 'X end'
+        scripts.append((c["id"], s[:k] + ["X thm"] + s[k:]))
+    model = common.run_model(scripts, ctx["mdl"], batch=8)
+    hold = 0; notadm = 0; nottyped = 0
+    for c in cases:
+        ml = model.get(c["id"], [])
+        hyp = [l for l in ml if l.startswith("#hyp ")]
+        if not hyp: c["oracle"].append((pid, "the model did not evaluate the theorem's hypotheses: %r" % ml[-2:])); continue
+        f = dict(kv.split("=") for kv in hyp[0][5:].split())
+        if f.get("adm") != "1": notadm += 1
+        if f.get("typed") != "1" or f.get("pre") != "1": nottyped += 1
+        if not (f.get("pre") == "1" and f.get("adm") == "1" and f.get("typed") == "1"): continue
+        hold += 1
+        il = c.get("impl", [])
+        for tag, what in (("qr", "query/response"), ("mm", "malformed-message")):
+            got = [l[len(tag) + 1:] for l in il if l.startswith(tag + " ")]
+            exp = [l[len(tag) + 3:] for l in ml if l.startswith("#l%s " % tag)]
+            if got != exp:
+                k = next((j for j in range(min(len(got), len(exp))) if got[j] != exp[j]), min(len(got), len(exp)))
+                c["oracle"].append((pid, "the %s records read back from the outputs differ from the right-hand side of the end-to-end theorem "
+                                         "(hint-filtered submitted records): %d read, %d expected, first difference at record %d: read %s, expected %s"
+                                         % (what, len(got), len(exp), k, (got[k] if k < len(got) else "<none>")[:160], (exp[k] if k < len(exp) else "<none>")[:160])))
+                break
+    return {"histories": len(cases), "hypotheses_hold": hold, "not_admissible": notadm, "outside_format_ranges": nottyped}
 
 def finish(ctx, pid, cases, diffs, rule, related=()):
     """failing inputs attributed to this property (or to a property it is a corollary of) are violations with a replay;
